@@ -23,7 +23,9 @@ func Main(args []string) int {
 	seed := fs.Int64("seed", 1, "seed")
 	runs := fs.Int("runs", 20, "seeded behaviours")
 	steps := fs.Int("steps", 40, "steps per behaviour")
+	chunk := fs.Int("chunk", 0, "keep the log splittable every N nodes (0 = one tree per walk)")
 	fs.Parse(args)
+	chunker.K = *chunk
 	lg := &sim.Log{}
 	var graphs []*Graph
 	if *tfile != "" {
